@@ -26,6 +26,10 @@ var _ enmime.Envelope
 func ghost_status(w http.ResponseWriter) int { panic("ghost") }
 func ghost_nbody(w http.ResponseWriter) int  { panic("ghost") }
 
+// ghost_rendered(w): the value most recently JSON-encoded to w; ghost_jencw(e): the writer of an encoder.
+func ghost_rendered(w io.Writer) any         { panic("ghost") }
+func ghost_jencw(e *json.Encoder) io.Writer  { panic("ghost") }
+
 //@ ext net/http.NotFound(w http.ResponseWriter, r *http.Request)
 //@   modifies ghost_status(w), ghost_nbody(w)
 //@   ensures ghost_status(w) == 404
@@ -43,8 +47,10 @@ func ghost_nbody(w http.ResponseWriter) int  { panic("ghost") }
 
 // JSON encoding / decoding: content not modelled; the encoder writes one body to its writer.
 //@ ext encoding/json.NewEncoder(w io.Writer) (e *json.Encoder)
-//@   ensures e != nil && vcFresh(e)
+//@   ensures e != nil && vcFresh(e) && ghost_jencw(e) == w
 //@ ext (*encoding/json.Encoder).Encode(e *json.Encoder, v any) (err error)
+//@   modifies ghost_rendered(ghost_jencw(e))
+//@   ensures ghost_rendered(ghost_jencw(e)) == v
 //@ ext encoding/json.NewDecoder(r io.Reader) (d *json.Decoder)
 //@   ensures d != nil && vcFresh(d)
 //@ ext (*encoding/json.Decoder).Decode(d *json.Decoder, v any) (err error)
